@@ -106,6 +106,10 @@ impl<'a> Ctx<'a> {
     fn table_in(&mut self, t: &Table, parent: &Sp, root: bool) {
         let s = t.span();
         self.check(&s, parent);
+        // a table with a header of its own (not merely mentioned by a longer header) always has a span, whenever the header comes
+        if s.is_none() && !root && !t.is_implicit() {
+            self.shape = false;
+        }
         // shape of a table's span: a [header] table starts at its `[`; it ends with its last own entry, or, when it has
         // none, with the `]` of its header (never inside the trivia after it); a dotted-key table ends with its last value
         if let Some(r) = &s {
